@@ -258,12 +258,19 @@ func (cl *Client) doBinary(c Cmd) (Outcome, error) {
 }
 
 func (cl *Client) doText(c Cmd) (Outcome, error) {
-	var o Outcome
 	if _, err := cl.C.Write(EncodeText(c)); err != nil {
+		var o Outcome
 		o.Class = Closed
 		o.Trace = append(o.Trace, "write: "+err.Error())
 		return o, nil
 	}
+	return cl.RecvText(c)
+}
+
+// RecvText reads the complete text-protocol reply to c (which must already
+// have been sent).
+func (cl *Client) RecvText(c Cmd) (Outcome, error) {
+	var o Outcome
 	cl.arm()
 	read := func(lenient bool) (TextReply, bool, error) {
 		rep, err := ReadTextReply(cl.R, lenient)
@@ -373,4 +380,26 @@ func (cl *Client) Drain(max time.Duration) ([]byte, error) {
 		return b, ErrTimeout
 	}
 	return b, nil
+}
+
+// RecvBinUntil reads binary reply frames until one carries the opaque
+// sentinel (included in the result), or until EOF / a malformed frame.
+func (cl *Client) RecvBinUntil(sentinel uint32) (frames []BinReply, closed bool, problem string, err error) {
+	cl.arm()
+	for {
+		rep, e := ReadBinReply(cl.R)
+		if e != nil {
+			if isTimeout(e) {
+				return frames, false, "", ErrTimeout
+			}
+			if errors.Is(e, ErrFrame) {
+				return frames, true, e.Error(), nil
+			}
+			return frames, true, "", nil
+		}
+		frames = append(frames, rep)
+		if rep.Opaque == sentinel {
+			return frames, false, "", nil
+		}
+	}
 }
